@@ -537,11 +537,12 @@ func c05R5(c *Ctx) {
 }
 
 // removeAuthgrantsRule (shared by C05.R4 and C07.R5): RemoveAuthgrants hands out grants only
-//   exact-entry: taken from agMap[user][key] for its own two arguments, and found there (comma-ok true,
-//                or the value found non-empty / non-nil on the path);
-//   single-use:  after delete(…, key) on the same path;
-//   atomic:      with the read and the delete inside one critical section of the map's lock, so that two
-//                concurrent admissions cannot both take the same grants.
+//
+//	exact-entry: taken from agMap[user][key] for its own two arguments, and found there (comma-ok true,
+//	             or the value found non-empty / non-nil on the path);
+//	single-use:  after delete(…, key) on the same path;
+//	atomic:      with the read and the delete inside one critical section of the map's lock, so that two
+//	             concurrent admissions cannot both take the same grants.
 func removeAuthgrantsRule(c *Ctx, rule string) {
 	P := c.P
 	rm := P.Func("authgrants", "(*AuthgrantMapSync).RemoveAuthgrants")
